@@ -36,6 +36,7 @@ def shard(ctx: Ctx) -> None:
     sweep.trailing_frames_sweep(ctx, PROP)
     sweep.raising_on_stop_sweep(ctx, PROP)
     sweep.reconnect_in_on_stop_sweep(ctx, PROP)
-    sweep.outside_loop_client_sweep(ctx, PROP)   # several sessions on one client object, the next opened inside the previous stop callback
+    sweep.outside_loop_client_sweep(ctx, PROP)
+    sweep.dropped_client_sweep(ctx, PROP)   # several sessions on one client object, the next opened inside the previous stop callback
     sweep.connect_fault_sweep(ctx, PROP)   # failures BEFORE a transport exists (resolver, TCP, setsockopt, silent peer) x user actions: the socket must still be released
     sweep.pair_sweep(ctx, PROP, 4000 if ctx.thorough else 150)
